@@ -51,7 +51,7 @@ Definition state_of (t : term) (tk : list string * lex_end) : pstate :=
       (map (fun v => (fst v, [declared_item v])) (fv t) ++
        flat_map sort_binding (get_types t) ++
        [("false", [ITerm TFalse]); ("true", [ITerm TTrue])])
-      [] None (all_syms t) 0%Z (flat_map sort_decl (get_types t)).
+      [] None (all_syms t) 0%Z (flat_map sort_decl (get_types t)) (map (fun _ => None) (fst tk)).
 
 Definition read_back (pr : term -> sexp) (t : term) : er item :=
   match get_expression (state_of t (lex (text_of (pr t)))) with
